@@ -122,6 +122,18 @@ func genSearchScenario(rng *rand.Rand, profile string, thorough bool) *SearchSce
 			var nr *Root
 			if w > 0 {
 				r2 := genRoot(rng, "")
+				if rng.IntN(3) == 0 {
+					// kings and rooks at home, open lines: castling moves and checks are
+					// frequent, so castling is a frequent stored move
+					r2 = Root{FEN: pick(rng, []string{
+						"r3k2r/8/8/8/8/8/8/R3K2R w KQkq - 0 1",
+						"r3k2r/8/8/8/8/8/8/R3K2R b KQkq - 0 1",
+						"r3k2r/pppq1ppp/8/8/8/8/PPPQ1PPP/R3K2R w KQkq - 0 1",
+						"r3k2r/p1p2p1p/8/1b6/1B6/8/P1P2P1P/R3K2R b KQkq - 0 1",
+						"r3k2r/8/8/4q3/4Q3/8/8/R3K2R w KQkq - 0 1",
+						"r3k3/8/8/8/8/8/8/R3K2R w KQq - 0 1",
+					}), Tag: "castling-rich"}
+				}
 				nr = &r2
 				g = r2.Game()
 			}
